@@ -261,7 +261,7 @@ func runC10(c *Ctx) {
 			case "atomic":
 				for _, r := range core.Refs(fa) {
 					call, isCall := r.(*ssa.Call)
-					okA := isCall && strings.HasPrefix(core.CalleeName(&call.Call), "sync/atomic.")
+					okA := isCall && (strings.HasPrefix(core.CalleeName(&call.Call), "sync/atomic.") || strings.HasPrefix(core.CalleeName(&call.Call), "(*sync/atomic."))
 					if _, isDbg := r.(*ssa.DebugRef); isDbg {
 						continue
 					}
@@ -405,7 +405,7 @@ func runC09(c *Ctx) {
 			ok := !linksGuarded || guardedByConfFlag(u.call, "EnableLRU", true)
 			c.check(ok, "C09.link-guard", u.fn, "listUnlink(&"+core.Describe(itemOfLink(arg))+".used) under EnableLRU", u.call,
 				"items are linked only when conf.EnableLRU is set; unlinking an item found through the map without that condition dereferences nil links when LRU is off")
-		case fromListEnd(arg):
+		case fromListEnd(arg) || (nodeOfLink(arg) != nil && fromListEnd(nodeOfLink(arg))):
 			c.check(true, "C09.link-guard", u.fn, "listUnlink(node from listFirst/listLast)", u.call, "linked by provenance")
 		default:
 			c.undecided("C09.link-guard", u.fn, "listUnlink("+core.Describe(arg)+")", u.call, "cannot tell whether the node is linked")
@@ -465,8 +465,18 @@ func runC09(c *Ctx) {
 				}
 				if b, isB := cond.(*ssa.BinOp); isB && (b.Op == token.NEQ) == truth && (b.Op == token.NEQ || b.Op == token.EQL) {
 					px := core.PathOf(b.X)
+					already := false
 					if n := len(px.Fields); n >= 2 && px.Fields[n-1] == "next" && px.Fields[n-2] == "used" && isUsageList(b.Y) {
 						continue // already the most recently used one: nothing to move
+					}
+					// the same test through the list: listLast(&c.usage) != &item.used
+					for _, pr := range [][2]ssa.Value{{b.X, b.Y}, {b.Y, b.X}} {
+						if isListEndOf(pr[0], "listLast") && sameValue(pr[1], u.call.Call.Args[0]) {
+							already = true
+						}
+					}
+					if already {
+						continue
 					}
 				}
 				extra = core.Describe(cond)
@@ -655,7 +665,7 @@ func runC09(c *Ctx) {
 				// unlink of the victim
 				unl := false
 				for _, u := range unlinks {
-					if u.fn == set && u.call.Call.Args[0] == ssa.Value(victim) && body[u.call.Block()] {
+					if u.fn == set && (u.call.Call.Args[0] == ssa.Value(victim) || nodeOfLink(u.call.Call.Args[0]) == ssa.Value(victim)) && body[u.call.Block()] {
 						unl = true
 					}
 				}
@@ -717,7 +727,7 @@ func runC09(c *Ctx) {
 		for _, ret := range core.Returns(get) {
 			isAdd := func(in ssa.Instruction) bool {
 				call, ok := in.(*ssa.Call)
-				return ok && core.CalleeName(&call.Call) == "sync/atomic.AddInt32"
+				return ok && isAtomicOp(core.CalleeName(&call.Call), "Add")
 			}
 			mn, mx, ok := core.CountOnPaths(get, nil, ret, isAdd)
 			which := "hit"
@@ -900,9 +910,11 @@ func c09Pairing(c *Ctx, ci *cacheInfo, set, get, del *ssa.Function) {
 					if f, _, ok := loadedCacheField(x.Call.Args[0]); ok {
 						got[core.FieldName(fa)] = "len(" + f + ")"
 					}
-				case "sync/atomic.LoadInt32":
-					if f, _, ok := cacheField(x.Call.Args[0]); ok {
-						got[core.FieldName(fa)] = f
+				default:
+					if isAtomicOp(core.CalleeName(&x.Call), "Load") {
+						if f, _, ok := cacheField(x.Call.Args[0]); ok {
+							got[core.FieldName(fa)] = f
+						}
 					}
 				}
 			case *ssa.UnOp:
@@ -965,9 +977,44 @@ func sameKey(a, b ssa.Value) bool {
 	ca, ok1 := a.(*ssa.Convert)
 	cb, ok2 := b.(*ssa.Convert)
 	if ok1 && ok2 {
-		return sameValue(ca.X, cb.X)
+		return sameValue(storedIn(ca.X), storedIn(cb.X))
 	}
 	return false
+}
+
+// storedIn: a load of a field of an object allocated in this function, whose
+// only store to that field is v, is v.
+func storedIn(x ssa.Value) ssa.Value {
+	ld, ok := x.(*ssa.UnOp)
+	if !ok || ld.Op != token.MUL {
+		return x
+	}
+	fa, ok := ld.X.(*ssa.FieldAddr)
+	if !ok {
+		return x
+	}
+	al, ok := fa.X.(*ssa.Alloc)
+	if !ok {
+		return x
+	}
+	var val ssa.Value
+	n := 0
+	for _, r := range core.Refs(al) {
+		fa2, isFA := r.(*ssa.FieldAddr)
+		if !isFA || fa2.Field != fa.Field {
+			continue
+		}
+		for _, rr := range core.Refs(fa2) {
+			if st, isSt := rr.(*ssa.Store); isSt && st.Addr == ssa.Value(fa2) {
+				n++
+				val = st.Val
+			}
+		}
+	}
+	if n == 1 {
+		return val
+	}
+	return x
 }
 
 // sameValue: identical SSA value, or two loads / field addresses of the same path.
@@ -992,7 +1039,7 @@ func paramKeyString(fn *ssa.Function) ssa.Value {
 	// any Convert string <- []byte of the key parameter
 	var out ssa.Value
 	core.EachInstr(fn, func(in ssa.Instruction) {
-		if cv, ok := in.(*ssa.Convert); ok && len(fn.Params) >= 2 && cv.X == fn.Params[1] {
+		if cv, ok := in.(*ssa.Convert); ok && len(fn.Params) >= 2 && (cv.X == fn.Params[1] || (out == nil && storedIn(cv.X) == ssa.Value(fn.Params[1]))) {
 			out = cv
 		}
 	})
@@ -1770,4 +1817,53 @@ func c09ListOps(c *Ctx) {
 		}
 		c.check(ok, "C09.list-ops", f, sp.name+" has the list effect", nil, sprintf("final heap %v, result %q; expected %v, %q", heap, ret, sp.heap, sp.ret))
 	}
+}
+
+// isAtomicOp: name is sync/atomic.<Op>Int32 & co. or the method <Op> of one of
+// the atomic integer types; both forms take the address first.
+func isAtomicOp(name, op string) bool {
+	if strings.HasPrefix(name, "sync/atomic."+op) {
+		return true
+	}
+	if strings.HasPrefix(name, "(*sync/atomic.") && strings.HasSuffix(name, ")."+op) {
+		return true
+	}
+	return false
+}
+
+// nodeOfLink: v is &X.used for an *item X computed from a list node N by the
+// container-of conversion (structPtr): that address is N itself.
+func nodeOfLink(v ssa.Value) ssa.Value {
+	if !isItemLink(v) {
+		return nil
+	}
+	x := itemOfLink(v)
+	for i := 0; i < 8; i++ {
+		switch y := x.(type) {
+		case *ssa.Convert:
+			x = y.X
+		case *ssa.ChangeType:
+			x = y.X
+		case *ssa.Call:
+			if cal := y.Call.StaticCallee(); cal != nil && cal.Name() == "structPtr" {
+				n := y.Call.Args[0]
+				for {
+					switch z := n.(type) {
+					case *ssa.Convert:
+						n = z.X
+						continue
+					case *ssa.ChangeType:
+						n = z.X
+						continue
+					}
+					break
+				}
+				return n
+			}
+			return nil
+		default:
+			return nil
+		}
+	}
+	return nil
 }
